@@ -19,7 +19,8 @@ RULE = ("scenario = run_forever(ping_interval=i, ping_timeout=t, ping_payload=p)
         "refused pairs raise WebSocketException with zero network activity.  Enumerated completely: the accepted grid x "
         "{responsive, silent after 0/1/3 pongs} x {no traffic, steady}; every refused pair.  non-trivial = a ping was "
         "sent; distinct = (i, t, stratum, latency pattern, traffic pattern, schedule digest)")
-ASSUMPTIONS = ["every timed wait overshoots by one tick (15 us); bounds carry a slack of 1/16 s for that",
+ASSUMPTIONS = ["a pre-empted thread may additionally be held up for <= 1/32 s of virtual time ('slow thread' fault); latencies stay below 0.9 t",
+               "every timed wait overshoots by one tick (15 us); bounds carry a slack of 1/16 s for that",
                "the run of the responsive stratum is ended by a server close frame after several ping periods"]
 I_GRID = (1, 2, 3, 5, 8, 20)
 T_GRID = (None, 0.5, 1, 2, 4, 7)
@@ -89,7 +90,7 @@ def gen(rng):
           "seed": rng.randrange(1 << 30)}
     pong = {"mode": rng.choice(("const", "jitter", "burst"))}
     lim = int((tt if tt else it) * 0.9) - 2
-    pong["lat"] = rng.randrange(0, max(1, lim))
+    pong["lat"] = 0 if rng.random() < 0.3 else rng.randrange(0, max(1, lim))
     if pong["mode"] != "const":
         pong["lats"] = [rng.randrange(0, max(1, lim)) for _ in range(rng.randrange(2, 6))]
     if tt is not None and rng.random() < 0.5:
@@ -106,7 +107,10 @@ def gen(rng):
     sc["traffic"] = tr
     sc["policy"] = rng.choice(({"kind": "coop", "p_call": 0.0}, {"kind": "coop", "p_call": 0.3},
                                {"kind": "prob", "p_line": 1 / 64, "p_call": 0.3}, {"kind": "prob", "p_line": 1 / 8, "p_call": 0.3},
-                               {"kind": "pct", "d": 2, "len": 4000}))
+                               {"kind": "pct", "d": 2, "len": 4000},
+                               {"kind": "prob", "p_line": 1 / 8, "p_call": 0.3, "stall": 199, "stall_max": S // 256, "stall_seed": rng.randrange(1 << 20)},
+                               {"kind": "prob", "p_line": 1 / 64, "p_call": 0.3, "stall": 97, "stall_max": S // 512, "stall_seed": rng.randrange(1 << 20)},
+                               {"kind": "prob", "p_line": 0.0, "p_call": 0.0, "stall": 131, "stall_max": S // 256, "stall_seed": rng.randrange(1 << 20)}))
     return sc
 
 
@@ -167,6 +171,7 @@ def run(sc, choices=None):
     w = out["world"]
     res.absorb(w)
     run_ = out["runs"][0]
+    SLACK = S // 16 + w.k.stall_ticks + w.k.stalls  # injected 'slow thread' time is not the library's doing
     i_s, t_s = it / S, (None if tt is None else tt / S)
     ratio = "no_timeout" if tt is None else ("interval<=2*timeout" if it <= 2 * tt else "interval>2*timeout")
     stratum = "refused" if refused else ("silent" if silent else "responsive")
